@@ -2,15 +2,21 @@
 
 #include <mutex>
 
+#include "verif_hooks.h"
+
 std::ostream& operator<<(std::ostream& os, SyncCout sc) {
 
   static std::mutex m;
+
+  VERIF_IO_LOCK_WAIT(sc, m);
 
   if (sc == IO_LOCK)
       m.lock();
 
   if (sc == IO_UNLOCK)
       m.unlock();
+
+  VERIF_IO_LOCK_DONE(sc, m);
 
   return os;
 }
